@@ -372,6 +372,18 @@ def gen(rng, n, tier):
             t = mk()
             for m in masks:
                 ops.append(f"mutscan {m} " + " ".join(t))
+            # every single bit of the tag byte (each is a flag that changes the layout or the meaning)
+            for bit in range(8):
+                ops.append(f"mut x0:{1 << bit} " + " ".join(t))
+    # datagrams that are both connected and ack-eliciting: IS_CONNECTED does not change the layout there
+    for _ in range(npk):
+        t = spec_datagram(rng)
+        if t[5] == "-":
+            t[5] = str(rvar(rng))
+        if t[6] == "-":
+            t[6] = str(rvar(rng))
+        for bit in range(8):
+            ops.append(f"mut x0:{1 << bit} " + " ".join(t))
     # a packet with every optional field, a 1200-byte payload
     cid = "f0e1d2c3b4a5968778695a4b3c2d1e0f"
     full = ["stream", "256", "app", cid, "16384", "64", "77", "1", "1", "1000", "0", "63", "16383", "20000", "aa" * 5, "bb" * 7, "@1200,9"]
